@@ -132,6 +132,16 @@ def run_model(tier, seed, res, scale=1.0):
             res.add_class("budget_stops")
         elif o["rc"] != 0 and done < len(c):
             failing.append(c[done])      # the harness died (sanitizer report) on this program
+        elif o["rc"] != 0:
+            # every program got its verdict, the report came at exit (LeakSanitizer: a work item or a pool that nobody owns any
+            # more): bisect for a program that reproduces it alone
+            part = list(c)
+            while len(part) > 1:
+                half = part[:len(part) // 2]
+                part = half if run_model_chunk((binp, half, 600))["rc"] not in (0, -99) else part[len(part) // 2:]
+            if part and model_one(binp, part[0]):
+                failing.append(part[0])
+                res.add_class("model_report_at_exit")
     seen = set()
     for prog in failing[:5]:
         small, msg = model_shrink(binp, prog)
